@@ -512,3 +512,53 @@ def check_c19(prop, tier, replay, selftest):
     res.assumptions = ["TLC evaluates Frontend correctly", "in scheduled mode producer progress is played by forwarding the producer's own messages one at a time (the producer's table at cut k is the prefix of its final table: append-only, C07)",
                        "in threads mode no cross-thread order is inferred; each observer's tables are judged against the producer's final table"]
     return res.finish()
+
+
+# ------------------------------------------------------------------ C08
+@register("C08")
+def check_c08(prop, tier, replay, selftest):
+    res = Result(prop, tier)
+    binary = build_harness()
+    bindir = build_repo_bins(("adf-bdd-bin",))
+    out = os.path.join(WORK, "parse_C08.ndjson")
+    os.makedirs(WORK, exist_ok=True)
+    run_harness(binary, ["parse", "--tier", tier, "--out", out, "--cli", os.path.join(bindir, "adf-bdd"), "--work", WORK])
+    if selftest:
+        def corrupt(rec):
+            if rec.get("verdict") != "ok" or rec.get("class") != "wellformed" or len(rec["names"]) < 2:
+                return None
+            rec["names"][0], rec["names"][1] = rec["names"][1], rec["names"][0]
+            return rec
+        ok = selftest_corrupt("Trace_Parse", out, corrupt)
+        print("SELFTEST %s: %s" % (prop, "binding demonstrated" if ok else "FAILED"))
+        return 0 if ok else 2
+    res.add_mc(require_mc(tlc_mc("MC_Syntax", "MC_Syntax_deep.cfg" if tier == "thorough" else "MC_Syntax.cfg", workers=12, timeout=1800)))
+    tr = tlc_trace("Trace_Parse", out)
+    res.add_trace(tr)
+    classes = {}
+    seen = set()
+    for gl, t in tr["tuples"]:
+        if gl is None:
+            continue
+        rec = json.loads(tr["lines"][gl - 1])
+        if t[0] == "INFO":
+            classes[t[3]] = classes.get(t[3], 0) + 1
+            if t[3] != "DONT_CARE":
+                seen.add(rec["text"])
+        elif t[0] == "MISMATCH":
+            res.violation("%s_%s" % (rec["id"], t[4]), {"property": prop, "component": "parse", "record": rec, "mismatch": t},
+                          "C08 %s on text %r (parser verdict %s)" % (t[4], rec["text"], rec["verdict"]))
+        elif t[0] == "DRIFT":
+            res.drift.append({"record": t[2], "what": t[3]})
+    res.evaluations = tr["records"]
+    res.distinct = seen
+    res.extra["oracle_classes"] = classes
+    res.extra["cli_checked"] = sum(1 for l in tr["lines"] if '"cli":[{' in l)
+    res.rule = ("records = texts through the real parser: seeded well-formed files (1-4 statements, formulas to depth 3 over all seven connectives "
+                "and both constants, plain / keyword-like / quoted labels, documented whitespace, shuffled fact order) and two suspicious mutations "
+                "of each (bracket, terminator, arity, garbage, blanks, truncation); TLC classifies each text itself with the strict and lenient "
+                "recogniser; distinct = distinct text; non-trivial = class is MUST_ACCEPT or MUST_REJECT")
+    res.samples = [{k: json.loads(l)[k] for k in ("id", "text", "verdict", "class")} for l in tr["lines"][40:44]]
+    res.extra["drift_count"] = len(res.drift)
+    res.assumptions = ["TLC evaluates AdfSyntax correctly", "texts <= 156 characters", "the web service's rejection path is exercised in C16"]
+    return res.finish()
